@@ -47,8 +47,36 @@ def enc(n: bytes) -> bytes:
         i += 1
     return bytes(out)
 
-def render(layout, rules):
+def enc_colon(toks):
+    """second, independent writer for names with ESCAPED COLONS (GCC >= 10 / Clang write `\\:` for a colon inside a name): a name is given
+    as a token list; tokens: plain bytes, b' ' b'#' b'$' (written \\SP \\# $$) and ('colon', j) = j backslashes followed by ':' inside the name,
+    written as j+1 backslashes + ':' (the scanner de-escapes the colon and keeps the other backslashes).  Returns (name, written form)."""
+    name = b''; out = b''
+    for t in toks:
+        if isinstance(t, tuple): name += b'\\' * t[1] + b':'; out += b'\\' * (t[1] + 1) + b':'
+        elif t == b' ': name += t; out += b'\\ '
+        elif t == b'#': name += t; out += b'\\#'
+        elif t == b'$': name += t; out += b'$$'
+        else: name += t; out += t
+    return name, out
+
+def gen_colon_name(rnd):
+    toks = []
+    for _ in range(rnd.randrange(1, 6)):
+        r = rnd.random()
+        if r < 0.35: toks += [('colon', rnd.choice([0, 0, 1, 2, 3, 4])), rnd.choice([b'a', b'hdr.h', b'/x', bytes([0xe9])])]   # a colon is followed by plain text
+        elif r < 0.7: toks.append(rnd.choice([b' ', b'#', b'$']))
+        else: toks.append(rnd.choice([b'a', b'my', b'dir/', b'C', b'x.y']))
+    if isinstance(toks[0], tuple) and rnd.random() < 0.5: toks.insert(0, b'p')
+    return enc_colon(toks)
+
+def render(layout, rules, encf=None):
     """layout: (cont, crlf, trail)"""
+    global enc
+    if encf is not None:
+        saved = enc; enc = encf
+        try: return render(layout, rules)
+        finally: enc = saved
     cont, crlf, trail = layout
     eol = b' ' * trail + (b'\r\n' if crlf else b'\n')
     out = b''
@@ -112,7 +140,16 @@ def run(ctx):
     # rejects
     nocolon = [b' '.join(enc(rnd.choice(wf)) for _ in range(rnd.randrange(1, 4))) + b'\n' for _ in range(300)]
     ntext = [render(lay, rules) for lay, rules in named]
-    cases = raw + ntext + nocolon
+    # names with escaped colons (and backslashes in front of them), after earlier escapes that shrink the name: second writer
+    named2 = []; ntext2 = []
+    for _ in range(2500 if ctx.quick() else 30000):
+        lay = rnd.choice(layouts); written = {}
+        def nm():
+            n, w = gen_colon_name(rnd); written[n] = w; return n
+        rules = [([rnd.choice([b'out.o', b'x.o'])] if rnd.random() < 0.8 else [nm()], [nm() if rnd.random() < 0.8 else rnd.choice([b'a.h', b'../b.h']) for _ in range(rnd.randrange(1, 5))])
+                 for _r in range(rnd.randrange(1, 3))]
+        named2.append((lay, rules)); ntext2.append(render(lay, rules, encf=lambda n: written.get(n, n)))
+    cases = raw + ntext + nocolon + ntext2
     lines = [hexs(c) for c in cases]
     rc, iout, ierr = vlib.run_lines(impl, 'depfile', lines)
     if rc != 0 or len(iout) != len(lines):
@@ -151,6 +188,12 @@ def run(ctx):
     for k, c in enumerate(nocolon):
         if iout[base + len(named) + k] != 'ERR nocolon':
             ctx.violation('reject-nocolon', 'component depfile\ninput %s\n' % hexs(c), 'depfile without ":" accepted: %r -> %s' % (c, iout[base + len(named) + k]))
+    base2 = base + len(named) + len(nocolon)
+    for k, (lay, rules) in enumerate(named2):
+        want = expected(rules); got = iout[base2 + k]
+        if got != want:
+            ctx.violation('roundtrip-colon', 'component depfile\ninput %s\n' % lines[base2 + k],
+                          'depfile %r (layout %r, names with escaped colons) read as %s, names written were %s' % (ntext2[k], lay, got, want))
     # the listed finding: printable bytes outside the scanner's classes split a name
     kf = [k for k in ctx.known_list if k.get('property') == 'C15' and k.get('id') == 'unlisted-punctuation']
     probe = [b'a' + bytes([c]) + b'b.h' for c in UNLISTED]
@@ -165,4 +208,4 @@ def run(ctx):
                         '(+ length 4 over 5 symbols) as dependency (duplicated) and as target, in 12 layouts (one line / continuation per name x LF/CRLF x 0-2 trailing blanks), '
                         'random multi-rule lists, colon-less files; non-trivial = parser returned at least one name, distinct by result' % (nexh, L),
                    samples=[{'depfile': repr(ntext[k]), 'read_as': iout[base + k]} for k in (0, 7, len(wf), len(named) - 1)],
-                   distribution={'raw_exhaustive': nexh, 'raw_random': len(raw) - nexh, 'name_cases': len(named), 'wf_names': len(wf), 'nocolon': len(nocolon)})
+                   distribution={'raw_exhaustive': nexh, 'raw_random': len(raw) - nexh, 'name_cases': len(named), 'escaped_colon_name_cases': len(named2), 'wf_names': len(wf), 'nocolon': len(nocolon)})
